@@ -11,7 +11,7 @@ CONSTANTS
   MaxFaults = 1
   Behaviours = {"ok", "ok_m", "evErr", "evErr_m", "short", "short_m", "undec", "undec_m", "e400", "e401", "e500", "r429_1", "r503_1", "r503_2", "r429_none", "r429_date", "r429_junk", "r429_0", "r429_past", "r429_60", "timeout"}
   Coarse = TRUE
-  Loose = FALSE
+  Loose = TRUE
 INVARIANTS TypeOK OwnDestination ExactlyOneBatch OversizeCounted BodyWithinLimit CountWithinLimit AtMostTwice Timely StopFlushes GaugeExact Conservation
 VIEW View
 CHECK_DEADLOCK FALSE
